@@ -46,7 +46,7 @@ NAMES = ('a', 'b', 'c')
 SIZES = {
     'quick': dict(nh=14, nh3=6, hgrow=4, sym=3, dims=(1, 2), dims3=('shepard', 'order1'),
                   narrs=(1, 2), shipped=('CubicSpline', 'Gaussian'),
-                  shipped_methods=('shepard', 'splash_norm'), nh_ship=16,
+                  shipped_methods=('shepard', 'splash_norm'), nh_ship=12,
                   periodic=METHODS, nh_per=9,
                   design=('Interp.hist.cfg', 'Interp.f1.cfg',
                           'Interp.f2.cfg'), design_workers=4),
@@ -348,8 +348,8 @@ def gen_history(rng, cfg, hid, first, family='plain'):
                     steps=steps)
     for it in range(rng.randint(2, 5)):
         for rep in range(rng.choice((1, 1, 1, 2))):
-            act = rng.choice(('SetPoints', 'UpdateArrays', 'UpdateArrays',
-                              'MoveUpdate', 'SetValues'))
+            act = rng.choice(('SetPoints', 'SetPoints', 'UpdateArrays',
+                              'UpdateArrays', 'MoveUpdate', 'SetValues'))
             if family == 'order' and it == 1 and rep == 0:
                 act = 'UpdateArraysPermuted'
             if act == 'SetPoints':
@@ -802,11 +802,53 @@ def selftest(chk):
     rng = random.Random(1)
     sessions = gen_sessions('quick', rng)
 
-    def pick(api, method, dim, narr):
+    def pick(api, method, dim, narr, per=False):
         return next(s for s in sessions if s['cfg']['api'] == api and
                     s['cfg']['method'] == method and s['cfg']['dim'] == dim
                     and len(s['cfg']['names']) == narr and
-                    s['cfg']['kernel'] == 'probe')
+                    s['cfg']['kernel'] == 'probe' and
+                    bool(any(s['cfg']['per'])) == per)
+
+    def patched(name, edits):
+        """An edited copy of the synchronised pysph/tools/interpolator.py in
+        the scratch directory, for the driver's --mutant file:PATH."""
+        with open(os.path.join(chk.env['VERIF_SRC'], 'pysph', 'tools',
+                               'interpolator.py')) as fp:
+            src = fp.read()
+        for old, new in edits:
+            if src.count(old) != 1:
+                raise MachineryError('selftest %s: pattern not found' % name)
+            src = src.replace(old, new)
+        path = os.path.join(chk.scratch, 'patched_%s.py' % name)
+        with open(path, 'w') as fp:
+            fp.write(src)
+        return 'file:' + path
+    reuse = patched('reuse_points', [(
+        "        self.pa = self._create_particle_array(x, y, z)\n"
+        "        arrays = self.particle_arrays + [self.pa]\n",
+        "        old = self.pa\n"
+        "        self.pa = self._create_particle_array(x, y, z)\n"
+        "        if old is not None and old.get_number_of_particles(True) "
+        "== x.size:\n"
+        "            # an omitted coordinate keeps its previous value\n"
+        "            for _n, _a in (('x', _gx), ('y', _gy), ('z', _gz)):\n"
+        "                if _a is None:\n"
+        "                    self.pa.get(_n)[:] = old.get(_n)\n"
+        "        arrays = self.particle_arrays + [self.pa]\n"), (
+        "        x, y, z = _get_array(x), _get_array(y), _get_array(z)\n",
+        "        _gx, _gy, _gz = x, y, z\n"
+        "        x, y, z = _get_array(x), _get_array(y), _get_array(z)\n")])
+    ghost_rho = patched('density_real_only', [(
+        "                        for name in names],\n"
+        "                          real=False),",
+        "                        for name in names],\n"
+        "                          real=True),")])
+    skip_solve = patched('order1_skip_solve', [(
+        "        augmented_matrix(a_mat, b, n, 1, 4, aug_mat)\n"
+        "        gj_solve(aug_mat, n, 1, res)\n",
+        "        if abs(b[0]) > 1e-12:\n"
+        "            augmented_matrix(a_mat, b, n, 1, 4, aug_mat)\n"
+        "            gj_solve(aug_mat, n, 1, res)\n")])
     bad = 0
     # (1) corrupt one recorded value of a passing history
     ses = pick('interp', 'shepard', 1, 2)
@@ -851,17 +893,25 @@ def selftest(chk):
                         ('no-nnps-update', ('interp', 'sph', 1, 2)),
                         ('stale-points', ('interp', 'splash', 1, 1)),
                         ('stale-staging', ('interp', 'shepard', 1, 2)),
-                        ('no-update-domain', ('interp', 'sph', 1, 1))):
+                        ('no-update-domain', ('interp', 'sph', 1, 1)),
+                        (reuse, ('interp', 'splash', 2, 1)),
+                        (ghost_rho, ('interp', 'order1', 1, 1, True)),
+                        (skip_solve, ('interp', 'order1', 2, 1))):
         ses = pick(*sel)
         ses = dict(ses, histories=[h for h in ses['histories']
-                                   if h['family'] in ('plain', 'hgrow')][-12:])
-        traces = run_sessions(chk, [ses], tag=mutant + '-', mutant=mutant)
-        vs, _ = validate(chk, traces, tag=mutant + '-')
+                                   if h['family'] in ('plain', 'hgrow',
+                                                      'sym')][-12:])
+        if mutant.startswith('file:'):
+            tagm = os.path.basename(mutant)[8:-3]
+        else:
+            tagm = mutant
+        traces = run_sessions(chk, [ses], tag=tagm + '-', mutant=mutant)
+        vs, _ = validate(chk, traces, tag=tagm + '-')
         caught = [v for v in vs if v['failed'] and not v['explained']]
         ok = bool(caught)
         print('SELFTEST mutant=%s: %d histories, %d reported as violations '
               '(e.g. %s) -> %s' % (
-                  mutant, len(vs), len(caught),
+                  tagm, len(vs), len(caught),
                   sorted(caught[0]['failed']) if caught else '-',
                   'caught' if ok else 'NOT CAUGHT'))
         bad += not ok
